@@ -1546,3 +1546,201 @@ Record LInv (x : ist) : Prop := {
   l_arg : forall t, privp (pc (thr (base x) t)) = true -> nval (base x) (nn (thr (base x) t)) = arg (thr (base x) t);
   l_gen : forall t, q48 (pc (thr (base x) t)) = true -> gen x (hh (thr (base x) t)) = hgen x t
 }.
+
+Ltac fin_all :=
+  repeat match goal with
+  | |- context [finish ?t ?T ?v] =>
+    let H := fresh "Hf" in
+    pose proof (finish_ok t T v) as H; destruct (finish t T v) as [? ?]; cbn [fst snd] in H
+  end.
+
+Ltac step_open s t Hpc :=
+  unfold step; destruct (pc (thr s t)) eqn:Hpc; try congruence; try tauto;
+  ifs_nat; try (destruct (pool s)); fin_all; cbn [fst]; msimp.
+
+Lemma step_other s t u : u <> t -> thr (fst (step sort s t)) u = thr s u.
+Proof. intros Hu. step_open s t Hpc; rewrite ?upd_other by auto; reflexivity. Qed.
+
+Lemma step_qs s t : pc (thr s t) <> P5 -> pc (thr s t) <> Q8 -> qs (fst (step sort s t)) = qs s.
+Proof. intros A B. step_open s t Hpc; reflexivity. Qed.
+
+Lemma step_nval s t : pc (thr s t) <> PA -> nval (fst (step sort s t)) = nval s.
+Proof. intros A. step_open s t Hpc; reflexivity. Qed.
+
+Lemma start_q48 T : start_ok T -> q48 (pc T) = false.
+Proof. unfold start_ok. destruct (pc T); cbn; tauto. Qed.
+
+Lemma step_priv s t : pc (thr s t) <> PA -> privp (pc (thr (fst (step sort s t)) t)) = true ->
+  privp (pc (thr s t)) = true /\ nn (thr (fst (step sort s t)) t) = nn (thr s t) /\
+  arg (thr (fst (step sort s t)) t) = arg (thr s t).
+Proof.
+  intros A. step_open s t Hpc; rewrite ?upd_same; msimp; rewrite ?Hpc; cbn [privp]; auto; try discriminate;
+    repeat match goal with H : same_regs _ ?T2 /\ start_ok ?T2 |- _ =>
+      destruct H as [_ H]; destruct (start_props _ H) as (_ & ? & _) end; congruence.
+Qed.
+
+Lemma step_q48 s t : pc (thr s t) <> Q3 -> q48 (pc (thr (fst (step sort s t)) t)) = true ->
+  q48 (pc (thr s t)) = true /\ hh (thr (fst (step sort s t)) t) = hh (thr s t).
+Proof.
+  intros A. step_open s t Hpc; rewrite ?upd_same; msimp; rewrite ?Hpc; cbn [q48]; auto; try discriminate;
+    repeat match goal with H : same_regs _ ?T2 /\ start_ok ?T2 |- _ =>
+      destruct H as [_ H]; apply start_q48 in H end; congruence.
+Qed.
+
+Lemma linv_boring x t s' :
+  LInv x -> Inv s' -> qs s' = qs (base x) -> nval s' = nval (base x) ->
+  (forall u, u <> t -> thr s' u = thr (base x) u) ->
+  (privp (pc (thr s' t)) = true ->
+     privp (pc (thr (base x) t)) = true /\ nn (thr s' t) = nn (thr (base x) t) /\
+     arg (thr s' t) = arg (thr (base x) t)) ->
+  (q48 (pc (thr s' t)) = true -> q48 (pc (thr (base x) t)) = true /\ hh (thr s' t) = hh (thr (base x) t)) ->
+  LInv {| base := s'; plog := plog x; qlog := qlog x; gen := gen x; hgen := hgen x |}.
+Proof.
+  intros [L1 L2 L3 L4] I' Eq Ev Ho Hp Hq. constructor; cbn [base plog qlog gen hgen]; auto.
+  - rewrite Eq, Ev. exact L2.
+  - intros u. rewrite Ev. destruct (Nat.eq_dec u t) as [->|Hu].
+    + intros X. destruct (Hp X) as (A & -> & ->). auto.
+    + rewrite Ho by auto. apply L3.
+  - intros u. destruct (Nat.eq_dec u t) as [->|Hu].
+    + intros X. destruct (Hq X) as (A & ->). auto.
+    + rewrite Ho by auto. apply L4.
+Qed.
+
+Lemma linv_step x t : LInv x -> LInv (lstep x t).
+Proof.
+  intros L. pose proof L as [L1 L2 L3 L4]. pose proof (step_inv (base x) t L1) as I'.
+  pose proof L1 as [R Q V].
+  unfold lstep. set (s := base x) in *. destruct (pc (thr s t)) eqn:Hpc;
+    try (apply (linv_boring x t); auto;
+         [apply step_qs; fold s; congruence | apply step_nval; fold s; congruence
+         | intros u Hu; apply step_other; auto
+         | apply step_priv; fold s; congruence | apply step_q48; fold s; congruence]).
+  - (* PA *) destruct (pool s) as [|f p] eqn:Hp.
+    + apply (linv_boring x t); auto; fold s.
+      * apply step_qs; fold s; congruence.
+      * unfold step. rewrite Hpc, Hp. fin_all. reflexivity.
+      * intros u Hu; apply step_other; auto.
+      * unfold step. rewrite Hpc, Hp. fin_all. cbn [fst]. msimp. rewrite upd_same.
+        destruct Hf as [_ Hf]. destruct (start_props _ Hf) as (_ & X & _). congruence.
+      * unfold step. rewrite Hpc, Hp. fin_all. cbn [fst]. msimp. rewrite upd_same.
+        destruct Hf as [_ Hf]. apply start_q48 in Hf. congruence.
+    + assert (Hfp : In f (pool s)) by (rewrite Hp; left; auto).
+      assert (Es : fst (step sort s t) = set_thr (set_alloc s p f (arg (thr s t))) t (set_pc (set_nn (thr s t) f) P0)).
+      { unfold step. rewrite Hpc, Hp. reflexivity. }
+      rewrite Es in *. constructor; cbn [base plog qlog gen hgen]; msimp; auto.
+      * rewrite L2. f_equal. apply map_ext_in. intros a Ha. symmetry. apply upd_other.
+        intros ->. apply (n_q_pool s Q f); auto. destruct (qs s); [destruct Ha|right; auto].
+      * intros u. thr_cases u t; msimp; [intros _; rewrite ?upd_same; reflexivity|]. intros X.
+        rewrite upd_other; [apply L3; auto|]. intros E.
+        assert (Ou : opc (pc (thr s u)) = true) by (unfold opc; rewrite X; auto).
+        destruct (n_own s Q u Ou) as (_ & _ & D3 & _). apply D3. unfold own. rewrite X, E. auto.
+      * intros u. thr_cases u t; msimp; [discriminate|]. intros X.
+        rewrite upd_other; [apply L4; auto|]. intros E.
+        assert (Lu := v_loc s V u). unfold vlocal in Lu.
+        assert (A : vq4 s (thr s u)) by (destruct (pc (thr s u)); try discriminate; tauto).
+        destruct A as (A1 & A2 & _). apply (v_pool s V u 0); [congruence|]. rewrite A1, E. auto.
+  - (* P5 *) destruct (Nat.eqb_spec (qtail s) (hh (thr s t))) as [E|E].
+    + assert (Es : fst (step sort s t) = set_thr (set_q s (qhead s) (nn (thr s t)) (qs s ++ [nn (thr s t)])) t (set_pc (thr s t) P6)).
+      { unfold step. rewrite Hpc. destruct (Nat.eqb_spec (qtail s) (hh (thr s t))); [reflexivity|contradiction]. }
+      rewrite Es in *. constructor; cbn [base plog qlog gen hgen]; msimp; auto.
+      * rewrite L2, <- app_assoc. f_equal. pose proof (q_ne s Q).
+        destruct (qs s) as [|a l]; [tauto|]. cbn [tl app]. rewrite map_app. cbn [map]. f_equal. f_equal.
+        symmetry. apply L3. fold s. rewrite Hpc. reflexivity.
+      * intros u. thr_cases u t; msimp; [discriminate|apply L3].
+      * intros u. thr_cases u t; msimp; [discriminate|apply L4].
+    + apply (linv_boring x t); auto; fold s.
+      * unfold step. rewrite Hpc. destruct (Nat.eqb_spec (qtail s) (hh (thr s t))); [contradiction|reflexivity].
+      * apply step_nval; fold s; congruence.
+      * intros u Hu; apply step_other; auto.
+      * apply step_priv; fold s; congruence.
+      * apply step_q48; fold s; congruence.
+  - (* Q3 *) destruct (Nat.eqb_spec (qhead s) (hh (thr s t))) as [E|E].
+    + assert (Es : fst (step sort s t) = set_thr s t (set_pc (set_held (thr s t) (upd (held (thr s t)) 0 (hh (thr s t)))) Q4)).
+      { unfold step. rewrite Hpc. destruct (Nat.eqb_spec (qhead s) (hh (thr s t))); [reflexivity|contradiction]. }
+      rewrite Es in *. constructor; cbn [base plog qlog gen hgen]; msimp; auto.
+      * intros u. thr_cases u t; msimp; [discriminate|apply L3].
+      * intros u. thr_cases u t; msimp; [intros _; reflexivity|apply L4].
+    + apply (linv_boring x t); auto; fold s.
+      * apply step_qs; fold s; congruence.
+      * apply step_nval; fold s; congruence.
+      * intros u Hu; apply step_other; auto.
+      * apply step_priv; fold s; congruence.
+      * unfold step. rewrite Hpc. destruct (Nat.eqb_spec (qhead s) (hh (thr s t))); [contradiction|].
+        cbn [fst]. msimp. rewrite upd_same. msimp. discriminate.
+  - (* Q8 *) destruct (Nat.eqb_spec (qhead s) (hh (thr s t))) as [E|E].
+    + destruct (head_cas_of_inv s t L1 Hpc E) as (r2 & Er & Hrv & _).
+      assert (Es : fst (step sort s t) = set_thr (set_q s (pv (thr s t)) (qtail s) (tl (qs s))) t (set_pc (thr s t) Q9)).
+      { unfold step. rewrite Hpc. destruct (Nat.eqb_spec (qhead s) (hh (thr s t))); [reflexivity|contradiction]. }
+      rewrite Es in *. constructor; cbn [base plog qlog gen hgen]; msimp; auto.
+      * rewrite L2, Er. cbn [tl map]. rewrite <- app_assoc. cbn [app]. rewrite Hrv. reflexivity.
+      * intros u. thr_cases u t; msimp; [discriminate|apply L3].
+      * intros u. thr_cases u t; msimp; [discriminate|apply L4].
+    + apply (linv_boring x t); auto; fold s.
+      * unfold step. rewrite Hpc. destruct (Nat.eqb_spec (qhead s) (hh (thr s t))); [contradiction|reflexivity].
+      * apply step_nval; fold s; congruence.
+      * intros u Hu; apply step_other; auto.
+      * apply step_priv; fold s; congruence.
+      * apply step_q48; fold s; congruence.
+Qed.
+
+Lemma iinit_linv P NN Mq progs : LInv (iinit P NN Mq progs).
+Proof.
+  assert (ST : forall t, start_ok (thr (init P NN Mq progs) t)) by (intros t; apply init_thr_ok).
+  constructor; cbn [base plog qlog gen hgen iinit].
+  - apply init_inv.
+  - reflexivity.
+  - intros t X. destruct (start_props _ (ST t)) as (_ & Y & _). congruence.
+  - intros t X. rewrite (start_q48 _ (ST t)) in X. discriminate.
+Qed.
+
+Theorem ireach_linv P NN Mq progs x : ireach P NN Mq progs x -> LInv x.
+Proof. induction 1; [apply iinit_linv|apply linv_step; auto]. Qed.
+
+
+(* ---------------- statements over the instrumented machine ---------------- *)
+Lemma fifo_of_linv x : LInv x ->
+  exists rest, plog x = qlog x ++ rest /\ rest = map (nval (base x)) (tl (qs (base x))).
+Proof. intros L. eexists. split; [apply (l_hist x L)|reflexivity]. Qed.
+
+Lemma pop_oldest_of_linv x t : LInv x ->
+  pc (thr (base x) t) = Q8 -> qhead (base x) = hh (thr (base x) t) ->
+  nth_error (plog x) (length (qlog x)) = Some (rv (thr (base x) t)).
+Proof.
+  intros L Hpc E. destruct (head_cas_of_inv _ t (l_inv x L) Hpc E) as (r2 & Er & Hrv & _).
+  rewrite (l_hist x L), Er. cbn [tl map]. rewrite nth_error_app2 by lia. rewrite Nat.sub_diag. cbn. congruence.
+Qed.
+
+Lemma empty_of_linv x t : LInv x ->
+  pc (thr (base x) t) = Q4 -> nprev (base x) (hh (thr (base x) t)) = 0 ->
+  hh (thr (base x) t) = qhead (base x) /\
+  (plog x = qlog x \/
+   exists u, pc (thr (base x) u) = P6 /\ hh (thr (base x) u) = qhead (base x) /\
+             nn (thr (base x) u) = hd 0 (tl (qs (base x)))).
+Proof.
+  intros L Hpc Hz. destruct (empty_justified_of_inv _ t (l_inv x L) Hpc Hz) as [A [B|B]]; split; auto.
+  left. rewrite (l_hist x L), B. cbn. apply app_nil_r.
+Qed.
+
+Lemma aba_of_linv x t : LInv x -> pc (thr (base x) t) = Q8 ->
+  gen x (hh (thr (base x) t)) = hgen x t /\
+  (qhead (base x) = hh (thr (base x) t) ->
+     exists r2, qs (base x) = hh (thr (base x) t) :: pv (thr (base x) t) :: r2 /\
+                rv (thr (base x) t) = nval (base x) (pv (thr (base x) t))).
+Proof.
+  intros L Hpc. split.
+  - apply (l_gen x L). rewrite Hpc. reflexivity.
+  - intros E. destruct (head_cas_of_inv _ t (l_inv x L) Hpc E) as (r2 & Er & Hrv & _). eauto.
+Qed.
+
+(* the generation of a node changes exactly when it is allocated from the pool *)
+Lemma gen_alloc x t n : gen (lstep x t) n <> gen x n ->
+  pc (thr (base x) t) = PA /\ hd 0 (pool (base x)) = n /\ In n (pool (base x)) /\ gen (lstep x t) n = S (gen x n).
+Proof.
+  unfold lstep. destruct (pc (thr (base x) t)) eqn:Hpc; cbn [gen]; try tauto;
+    try (match goal with |- context [if ?b then _ else _] => destruct b end; cbn [gen]; tauto).
+  destruct (pool (base x)) as [|f p]; cbn [gen]; [tauto|].
+  destruct (Nat.eq_dec n f) as [->|Hne]; [|rewrite upd_other by auto; tauto].
+  rewrite upd_same. intros _. cbn. auto.
+Qed.
+
+End Proofs3.
